@@ -3,6 +3,7 @@ CONSTANTS
   CommitSeqBeforeWrite = FALSE
   FreezeBeforeMetaFlush = FALSE
   ExpireOnConsumed = FALSE
+  IgnoreOverGap = FALSE
   Writable = TRUE
 SPECIFICATION TraceSpec
 INVARIANTS SeriesIndexed AckNotAhead NoLoss NoReapply FlushedResolves NoIdReuse IndexedResolves AckedDataIndexed
